@@ -38,6 +38,7 @@ def generate(seed, tier, enlarged=False):
     # the state a process or step is given when structural updates happen at the same instant: live stream of C07
     from harness import live
     cases += [live.gen_case(rng) for _ in range(n // 6)]
+    cases += live.corpus()
     return cases
 
 
@@ -76,7 +77,8 @@ def run(cases, tier='quick', seed=0):
         run_impl = staticmethod(live.run_impl)
         # handed-out states are the committed hierarchy; every update due at an instant is committed whatever the
         # listing order (also when another update of the batch deletes its process)
-        oracle = staticmethod(lambda c, ob, rng: live.oracle(c, ob, rng) + live.oracle_inflight(c, ob, rng))
+        oracle = staticmethod(lambda c, ob, rng: live.oracle(c, ob, rng) + live.oracle_inflight(c, ob, rng) +
+                              live.oracle_rels(c, ob, rng))
         nontrivial, stat_key = staticmethod(live.nontrivial), staticmethod(live.stat_key)
         render = staticmethod(live.render)     # the rebuild points of _send_updates / run_steps vs Model/Views.v
     return common.merge_streams(cases, [
